@@ -289,15 +289,25 @@ def check_learn(unit):
     bad, n = [], 0
     CH, CC, VAL = 0, 20, 64
     for order in queue_states():
-        st = initial(order)
-        _run(unit, fn, [CH, CC, VAL], st)
-        n += 1
-        got = queue_of(st)
-        head = order[0] if order else None
-        want = expected_after_removal(order, head) if head is not None else expected_after_removal(order, None)
-        bound = {i: st.get(("slot", i, "midi_cc")) for i in range(NSLOTS)}
-        want_bound = {i: (CH * 128 + CC if i == head else -1) for i in range(NSLOTS)}
-        if got != want or bound != want_bound:
-            bad.append({"waiting_in_order": list(order), "controller": CH * 128 + CC, "positions_afterwards": got[0], "learn_queue_len": got[1], "bound_cc": bound,
-                        "expected_positions": want[0], "expected_len": want[1], "expected_bound_cc": want_bound})
+        # second world: the slots that do not wait are bound to an NRPN that has the number of the plain controller - the two
+        # number spaces overlap (channel*128+cc against (hi<<7)+lo), a plain controller is looked up among the plain bindings only
+        for nrpn_twin in (False, True):
+            idle = [i for i in range(NSLOTS) if i not in order]
+            if nrpn_twin and not idle:
+                continue
+            st = initial(order)
+            if nrpn_twin:
+                for i in idle:
+                    st[("slot", i, "midi_nrpn")] = CH * 128 + CC
+            _run(unit, fn, [CH, CC, VAL], st)
+            n += 1
+            got = queue_of(st)
+            head = order[0] if order else None
+            want = expected_after_removal(order, head) if head is not None else expected_after_removal(order, None)
+            bound = {i: st.get(("slot", i, "midi_cc")) for i in range(NSLOTS)}
+            want_bound = {i: (CH * 128 + CC if i == head else -1) for i in range(NSLOTS)}
+            if got != want or bound != want_bound:
+                bad.append({"waiting_in_order": list(order), "controller": CH * 128 + CC, "slots_bound_to_an_nrpn_of_that_number": idle if nrpn_twin else [],
+                            "positions_afterwards": got[0], "learn_queue_len": got[1], "bound_cc": bound,
+                            "expected_positions": want[0], "expected_len": want[1], "expected_bound_cc": want_bound})
     return bad, n
